@@ -278,7 +278,11 @@ def check_shipped(backend, acc, only=None):
 
 
 def check_mangle(name, backend, acc):
+  before = acc.n["not_translatable"]
   r = trcheck.check_class(name, D.MANGLE[name], backend, acc, lambda imap: [{r: (13 * (k + 1) + 7 * j) & 0xFF for k, (r, w, _) in enumerate(imap)} for j in range(6)])
+  if r == "skipped" and acc.n["not_translatable"] > before and (name.startswith("Mangle") or name.endswith("Collide")):
+    # a design whose only peculiarity is that two of its names collide after mangling is refused: the names do collide
+    acc.violation(f"{backend}:class:refused:{name}", dict(design=name, backend=backend, kind="class"), "translated with distinct names", "refused by the translator", name)
   return r
 
 
